@@ -414,6 +414,13 @@ func runCase(d *Def, c *Case) (res Res) {
 		syn := b.Root.Help(getoptions.HelpSynopsis)
 		derr := b.Root.Dispatch(b.Ctx(), nil)
 		fmt.Fprintf(raw, "afterfail synopsis=%q derr=%v dwriter=%q|", syn, derr, w.String())
+	} else if !c.Disp && err == nil {
+		// a program without Dispatch fetches its arguments from the object it parsed with: with none left it is told
+		// which one is missing (or that one is) and shown a synopsis.  No panic (C19), repeatable (C20).
+		w.Reset()
+		_, _, e1 := b.Root.GetRequiredArg(nil)
+		_, _, e2 := b.Root.GetRequiredArgInt(nil)
+		fmt.Fprintf(raw, "rootarg err=%v,%v writer=%q|", e1, e2, w.String())
 	}
 	return res
 }
